@@ -25,6 +25,7 @@ import Golib.Model.C18Graph
 import Golib.Model.C18GraphApi
 import Golib.Model.C18GraphR
 import Golib.Model.C18KnapH
+import Golib.Model.C18Knap64
 
 namespace Golib.C18
 open Golib.Proto
@@ -100,6 +101,14 @@ def minKeyAbove (m : Int) : List (Int × List Item) → Option (Int × List Item
     | none => if e.1 > m then some e else none
     | some b => if e.1 > m ∧ e.1 < b.1 then some e else some b
 
+/-- When the driver also runs the 64-bit twins: few items, or an argument of magnitude `≥ 2^31`
+(everything within the 64-bit range, limit below `math.MaxInt`: the domain of the twin theorems). -/
+def edgeCase (items : List Item) (W : Int) : Bool :=
+  let in64 : Int → Bool := fun x => decide (-9223372036854775808 ≤ x ∧ x < 9223372036854775808)
+  let big : Int → Bool := fun x => decide (x.natAbs ≥ 2147483648)
+  in64 W && decide (W < 9223372036854775807) && items.all (fun x => in64 x.w && in64 x.v) &&
+    (decide (items.length ≤ 10) || big W || items.any (fun x => big x.w || big x.v))
+
 def solvLine (items : List Item) (maxV : Int) (over : Bool)
     (br : Option (List Item → List Item → Bool)) (seed : Nat) : String :=
   let ord1 : Nat → List Int → List Int := fun i l => permute (seed + 2 * i) l
@@ -113,6 +122,11 @@ def solvLine (items : List Item) (maxV : Int) (over : Bool)
     | some m =>
       let mv := solversV br maxV over (fun x => x.v) ord1 ord2 items
       if mv.map (fun e => (e.1, ids e.2)) ≠ m.map (fun e => (e.1, ids e.2)) then "model-mismatch" else
+      -- the 64-bit twin (`currentValue + value` wraps): `c18_solvers_int64_exact`
+      let m64 := if edgeCase items 0 ∧ items.all (fun x => decide (0 < x.v)) then
+          solversVA add64 br maxV over (fun x => x.v) ord1 ord2 items
+        else mv
+      if m64.map (fun e => (e.1, ids e.2)) ≠ mv.map (fun e => (e.1, ids e.2)) then "model-mismatch-int64" else
       let le := (m.filter fun e => e.1 ≤ maxV).mergeSort (fun a b => a.1 ≤ b.1)
       let ov := match minKeyAbove maxV m with
         | none => "none"
@@ -136,6 +150,16 @@ def dpOp (items : List Item) (ts : List String) : Option (Option String) :=
             (fun x : Item => x.w.toNat) (fun x => x.v) W.toNat items
         else viaValues
       if viaHeap.map ids ≠ viaValues.map ids then some (some "model-mismatch") else
+      -- on small instances and whenever an argument is at the edge of `int` also run the 64-bit twin
+      -- (wrapping `maxWeight+1`, `i-w`, `i--`, `score + value`; Go panics): `c18_knapsack_int64_exact`
+      -- says it returns the same selection / panics at the same place
+      let via64ok := if edgeCase items W then
+          match knapsack64 add64 br (fun x : Item => x.w) (fun x => x.v) W items, viaValues with
+          | .ok a, some b => ids a == ids b
+          | .panic, none => true
+          | _, _ => false
+        else true
+      if !via64ok then some (some "model-mismatch-int64") else
       some (viaValues.map showSel)
     | _, _ => none
   | ["knapv", W, b] =>
